@@ -207,7 +207,16 @@ func c08Case(c *core.Ctx) *core.Result {
 				mustContain = ""
 				im := gen.RandomImage(r, serial)
 				cg = core.Catch(func() {
-					if _, err := d.AddImageFromData(im.Data, "i.png", imgFormat(im.Format), im.W, im.H, nil); err != nil {
+					// every placement and wrapping an ImageConfig can ask for: an image is new content at the end whatever it looks like
+					var cfg *document.ImageConfig
+					if r.Chance(2, 3) {
+						cfg = &document.ImageConfig{
+							Position:  []document.ImagePosition{document.ImagePositionInline, document.ImagePositionFloatLeft, document.ImagePositionFloatRight}[r.Intn(3)],
+							WrapText:  []document.ImageWrapText{document.ImageWrapNone, document.ImageWrapSquare, document.ImageWrapTight, document.ImageWrapTopAndBottom}[r.Intn(4)],
+							Alignment: []document.AlignmentType{document.AlignLeft, document.AlignCenter, document.AlignRight}[r.Intn(3)],
+						}
+					}
+					if _, err := d.AddImageFromData(im.Data, "i.png", imgFormat(im.Format), im.W, im.H, cfg); err != nil {
 						mode = "maybe-noop"
 					}
 				})
